@@ -364,9 +364,11 @@ def monitor(traces, clauses, workdir, par=8, timeout=1800):
                 raise ToolError(f"TLC timed out validating {tf}")
             shutil.rmtree(meta, ignore_errors=True)
             consumed = False
+            parsed, reported = 0, -1
             for line in out.splitlines():
                 mm = VIOL_RE.match(line.strip())
                 if mm:
+                    parsed += 1
                     viols.append({"clause": mm.group(1), "run": int(mm.group(2)), "line": int(mm.group(3)),
                                   "detail": mm.group(4).replace('\\"', '"'), "trace": tf})
                 mc = CONS_RE.match(line.strip())
@@ -375,9 +377,13 @@ def monitor(traces, clauses, workdir, par=8, timeout=1800):
                     stats["events"] += int(mc.group(1))
                     stats["runs"] += int(mc.group(2))
                     stats["terminals"] += int(mc.group(3))
+                    reported = int(mc.group(4))
             if not consumed:
                 log(out[-3000:])
                 raise ToolError(f"TraceMon did not consume {tf} (monitor or trace malformed)")
+            if parsed != reported:
+                # the monitor counts the violations it printed: a mismatch means the driver lost lines
+                raise ToolError(f"TraceMon reported {reported} violations for {tf} but {parsed} lines were parsed")
             stats["files"] += 1
     finally:
         for (pr, meta, tf, ts) in running:
